@@ -537,6 +537,7 @@ def run(res: Results, idx: Index, tier: str) -> None:
     rule_e(res, idx, mods)
     _controls(res, idx)
     rule_f(res, idx)
+    rule_g(res, idx)
 
 
 def _mypy_crosscheck(res: Results, idx: Index, sites: List[SetIteration]) -> None:
@@ -702,3 +703,74 @@ def rule_f(res: Results, idx: Index) -> None:
     du = defuse(f.node)
     got = any(isinstance(v, ast.Call) and (call_name(v) or "") == "getattr" for v in du.values("register"))
     res.control("R-C14f", "a latch whose guarded body calls a method fetched from the parameter is recognised", got, "")
+
+
+# ---------------------------------------------------------------------------------------------- R-C14g
+def rule_g(res: Results, idx: Index) -> None:
+    """A module-level memo table makes a later request depend on earlier ones unless its key determines the memoised value.
+    For every function that both reads (`M.get(K)`, `M[K]`, `K in M`) and writes (`M[K] = V`) a module-level mapping, every
+    PARAMETER of the function that V is computed from must also be something K is computed from.  A parameter that flows
+    into the value but not into the key is answered from the first call for every later call that differs only there
+    (an abstract-eval memo that forgot `promote_integers` returned the promoted dtype for the unpromoted call)."""
+    res.rule("R-C14g", "memo tables are keyed by every parameter the memoised value depends on", floor=1)
+    n = 0
+    for m in idx.product_modules():
+        tables: Set[str] = set()
+        for st in m.tree.body:
+            if isinstance(st, (ast.Assign, ast.AnnAssign)) and st.value is not None:
+                v = st.value
+                if (isinstance(v, ast.Dict) and not v.keys) or (isinstance(v, ast.Call) and (dotted(v.func) or "").split(".")[-1] in ("dict", "OrderedDict", "WeakValueDictionary", "WeakKeyDictionary", "defaultdict", "LRUCache")):
+                    for t in (st.targets if isinstance(st, ast.Assign) else [st.target]):
+                        if isinstance(t, ast.Name):
+                            tables.add(t.id)
+        if not tables:
+            continue
+        for fi in m.funcs.values():
+            du = defuse(fi.node)
+            a = fi.node.args  # type: ignore[attr-defined]
+            params = {x.arg for x in a.posonlyargs + a.args + a.kwonlyargs} - {"self", "cls"}
+            if a.kwarg is not None:
+                params.add(a.kwarg.arg)
+            for tname in sorted(tables):
+                writes = [x for x in walk_no_nested(fi.node) if isinstance(x, ast.Assign) and isinstance(x.targets[0], ast.Subscript) and isinstance(x.targets[0].value, ast.Name) and x.targets[0].value.id == tname]
+                reads = [x for x in walk_no_nested(fi.node) if (isinstance(x, ast.Call) and isinstance(x.func, ast.Attribute) and x.func.attr in ("get", "pop") and isinstance(x.func.value, ast.Name) and x.func.value.id == tname)
+                         or (isinstance(x, ast.Subscript) and isinstance(x.value, ast.Name) and x.value.id == tname and isinstance(x.ctx, ast.Load))]
+                if not writes or not reads:
+                    continue
+                # a memo answers from the table: some return value derives from a read of it (registries that only test for
+                # presence before adding an entry are not memos)
+                read_ids = {id(r) for r in reads}
+                hit_names = {nm for nm, ds in du.defs.items() for d in ds if d.value is not None and any(id(x) in read_ids for x in ast.walk(d.value))}
+                answers = False
+                for r in walk_no_nested(fi.node):
+                    if isinstance(r, ast.Return) and r.value is not None:
+                        if any(id(x) in read_ids for x in ast.walk(r.value)) or ((du.closure(names_in(r.value)) | names_in(r.value)) & hit_names):
+                            answers = True
+                if not answers:
+                    continue
+                from .c13 import _only_called_at_decoration
+                if _only_called_at_decoration(idx, fi) or fi.name in ("onnx_function", "register_primitive", "register_example"):
+                    continue   # registration tables filled when the user decorates something: not export history
+                n += 1
+                w = writes[0]
+                key_e = w.targets[0].slice
+                key_deps = (du.closure(names_in(key_e)) | names_in(key_e)) & params
+                val_deps = (du.closure(names_in(w.value)) | names_in(w.value)) & params
+                # names the value depends on only through the key itself do not count
+                missing = sorted(val_deps - key_deps)
+                key = f"{m.rel}::{fi.qualname}::memo::{tname}"
+                site = f"{m.rel}:{w.lineno}"
+                if missing:
+                    res.violation("R-C14g", site, key, f"`{tname}[{src(key_e, 30)}] = {src(w.value, 40)}`: the memoised value is computed from the parameter(s) {missing}, which the key does not contain — the first call's answer is returned "
+                                  "to every later call that differs only there, so an export depends on which conversions ran before it in the process", fi.qualname)
+                else:
+                    res.ok("R-C14g", site, key, f"key `{src(key_e, 40)}` covers the parameters the value depends on ({sorted(val_deps) or 'none'})", fi.qualname)
+    res.analysed["memo_tables"] = n
+    ctl_src = "C = {}\ndef f(a, b, flag=True):\n    k = (a, b)\n    hit = C.get(k)\n    if hit is not None:\n        return hit\n    out = g(a, b, flag)\n    C[k] = out\n    return out\n"
+    tree = ast.parse(ctl_src)
+    fn = tree.body[1]
+    du = defuse(fn)
+    w = [x for x in ast.walk(fn) if isinstance(x, ast.Assign) and isinstance(x.targets[0], ast.Subscript)][0]
+    ps = {"a", "b", "flag"}
+    miss = ((du.closure(names_in(w.value)) | names_in(w.value)) & ps) - ((du.closure(names_in(w.targets[0].slice)) | names_in(w.targets[0].slice)) & ps)
+    res.control("R-C14g", "a memo keyed by (a, b) whose value also depends on `flag` is reported", miss == {"flag"}, str(sorted(miss)))
